@@ -1982,6 +1982,11 @@ class ReferenceManager:
         else:
             raise RuntimeError("must not happen")
 
+        # Register the new binding first: re-assigning the same value must
+        # not take its spec away
+        if not isinstance(value, Interface):
+            self._valid_to_refs.setdefault(id(value), []).append(refdict[name])
+
         refs = self._valid_to_refs.get(prev_valid, None)
         if refs is not None:        # None in case prev_ref is derived
             if prev_ref in refs:
@@ -1991,9 +1996,6 @@ class ReferenceManager:
                 spec = self._manager.get_spec_from_value(self._model.interface, prev_val)
                 if spec:
                     self._manager.del_spec(spec)
-
-        if not isinstance(value, Interface):
-            self._valid_to_refs.setdefault(id(value), []).append(refdict[name])
 
     def del_all_spec(self):
         specs = self.specs.copy()
